@@ -123,6 +123,8 @@ enum Kind {
     AuthFails,
     /// cookie accepted, Encryption Response with a wrong verify token
     InvalidResponse,
+    /// the status service answers with an error: there is no answer to relay
+    StatusFails,
 }
 
 #[derive(Clone, Debug)]
@@ -189,6 +191,13 @@ fn generate(cli: &Cli) -> Vec<Case> {
         for _ in 0..cli.scaled(cli.tier.pick(4, 40)) {
             let (sc, status_expected, ping) = base_scenario(&mut rng, b);
             out.push(Case { sc, class: format!("{bname}/baseline"), kind: Kind::Baseline, intent: Some(b.intent), status_expected, ping, honest_enc_response: b.intent != Intent::Status });
+        }
+        if b.intent == Intent::Status {
+            for _ in 0..3 {
+                let (mut sc, status_expected, ping) = base_scenario(&mut rng, b);
+                sc.adapters.status = Outcome::Err;
+                out.push(Case { sc, class: format!("{bname}/status-service-fails"), kind: Kind::StatusFails, intent: Some(b.intent), status_expected, ping, honest_enc_response: false });
+            }
         }
         if b.intent != Intent::Status {
             // the authentication service fails: nothing may follow the Encryption Request
@@ -355,6 +364,7 @@ fn check(case: &Case, run: &Run) -> Vec<Finding> {
         Kind::Blind => "blind-word".into(),
         Kind::AuthFails => "authentication-service-fails".into(),
         Kind::InvalidResponse => "invalid-encryption-response".into(),
+        Kind::StatusFails => "status-service-fails".into(),
     };
     // G1: the word is in the grammar
     if let Err((i, why)) = accept_word(case.intent, &names) {
@@ -414,7 +424,16 @@ fn check(case: &Case, run: &Run) -> Vec<Finding> {
         }
     }
     // G5: status content
-    if case.intent == Some(Intent::Status) {
+    if case.kind == Kind::StatusFails {
+        // "the status service's answer as JSON": a failed call has no answer, so whatever is sent as
+        // a Status Response is not the service's
+        if let Some(r) = run.client.first("StatusResponse") {
+            bad(format!("status-response-without-service-answer/{kind}"), "a Status Response was sent although the status service failed".into(), json!({"body": format!("{:?}", r.pkt)}));
+        }
+        if f.status_calls.is_empty() {
+            bad(format!("status-service-not-consulted/{kind}"), "harness: the failing status service was never consulted".into(), json!({}));
+        }
+    } else if case.intent == Some(Intent::Status) {
         if let Some(r) = run.client.first("StatusResponse")
             && let Ok(Pkt::StatusResponse { body }) = &r.pkt
         {
@@ -483,6 +502,7 @@ pub fn run_prop(cli: &Cli) -> i32 {
             Kind::ConfigWord => report.count("configuration-phase words", 1),
             Kind::Blind => report.count("blind pipelined words", 1),
             Kind::AuthFails | Kind::InvalidResponse => report.count("failed-authentication scripts", 1),
+            Kind::StatusFails => report.count("status exchanges with a failing status service", 1),
         }
         for (fi, w) in findings {
             report.violation(&fi.signature, &fi.what, w);
